@@ -292,6 +292,70 @@ Section DFS.
           -- eapply IH; [|exact H]. rewrite <- Efp. apply (inv_push cur d); auto. congruence.
   Qed.
 
+  (* ---- the direct predecessors of the given node are always covered (any Depth) ---- *)
+  Definition Jdirect (st : list frame) (V : list nat) : Prop :=
+    forall p, In p (fp (d_id node)) -> In (d_id p) V \/ In (d_id p) (sids st).
+
+  Lemma dfs_inv2 fuel : forall st V R roots,
+    Inv st V R -> Jdirect st V -> dfs fuel fp limit st V R = Some roots ->
+    exists V', Inv [] V' roots /\ Jdirect [] V'.
+  Proof.
+    induction fuel as [|fuel IH]; intros st V R roots I J H; cbn [dfs] in H; [discriminate|].
+    destruct st as [|[cur d] rest].
+    - injection H as <-. exists V. split; assumption.
+    - assert (Jpop : forall V', (forall v, In v V -> In v V') -> In (d_id cur) V' -> Jdirect rest V').
+      { intros V' Hsub Hc p Hp. destruct (J p Hp) as [Hv | Hs]; [left; auto|].
+        simpl in Hs. destruct Hs as [Hs | Hs]; [left; now rewrite <- Hs | right; exact Hs]. }
+      destruct (mem (d_id cur) V) eqn:Em.
+      + apply mem_In in Em. eapply IH; [| |exact H].
+        * eapply inv_pop_visited; eauto.
+        * apply Jpop; auto.
+      + apply mem_not_In in Em.
+        assert (Jroot : Jdirect rest (d_id cur :: V)).
+        { apply Jpop; [intros v Hv; right; exact Hv | left; reflexivity]. }
+        destruct ((0 <? limit)%Z && (Z.of_nat d =? limit)%Z)%bool eqn:El.
+        * apply andb_true_iff in El. destruct El as (E1 & E2).
+          apply Z.ltb_lt in E1. apply Z.eqb_eq in E2.
+          eapply IH; [| |exact H]; [apply (inv_root cur d); auto | exact Jroot].
+        * assert (Hnl : ~ ((0 < limit)%Z /\ Z.of_nat d = limit)).
+          { intros (E1 & E2). apply Z.ltb_lt in E1. apply Z.eqb_eq in E2.
+            rewrite E1, E2 in El. discriminate. }
+          destruct (fp (d_id cur)) as [|p0 ps] eqn:Efp.
+          -- eapply IH; [| |exact H]; [apply (inv_root cur d); auto | exact Jroot].
+          -- eapply IH; [| |exact H].
+             ++ rewrite <- Efp. apply (inv_push cur d); auto. congruence.
+             ++ intros p Hp. destruct (Jroot p Hp) as [Hv | Hs]; [left; exact Hv|].
+                right. apply sids_In in Hs. destruct Hs as (x & k & Hx & <-).
+                apply sids_In. exists x, k. split; auto. apply push_preds_In. left. exact Hx.
+  Qed.
+
+  Lemma roots_cover_direct_preds fuel roots :
+    find_roots_fp fuel fp limit node = Some roots ->
+    forall p, In p (fp (d_id node)) -> exists r, In r roots /\ reach (d_id p) (d_id r).
+  Proof.
+    unfold find_roots_fp. destruct fuel as [|fuel]; [discriminate|]. cbn [dfs]. simpl mem.
+    assert (E0 : ((0 <? limit)%Z && (Z.of_nat 0 =? limit)%Z)%bool = false).
+    { destruct (0 <? limit)%Z eqn:E1; auto. apply Z.ltb_lt in E1.
+      destruct limit; simpl; auto; lia. }
+    rewrite E0. intros H p Hp.
+    destruct (fp (d_id node)) as [|p0 ps] eqn:Efp; [contradiction|].
+    assert (I1 : Inv (push_preds (p0 :: ps) 1 [d_id node] []) [d_id node] []).
+    { rewrite <- Efp. apply (inv_push node 0 [] [] []).
+      - apply inv_init.
+      - intros [].
+      - intros (E1 & E2). apply Z.ltb_lt in E1. simpl in E2. rewrite <- E2 in E1. discriminate.
+      - rewrite Efp. discriminate. }
+    assert (J1 : Jdirect (push_preds (p0 :: ps) 1 [d_id node] []) [d_id node]).
+    { intros q Hq. rewrite Efp in Hq.
+      destruct (in_dec Nat.eq_dec (d_id q) [d_id node]) as [Hin | Hn]; [left; exact Hin|].
+      right. apply sids_In. exists q, 1. split; auto. apply push_preds_In. right. auto. }
+    destruct (dfs_inv2 fuel _ _ _ _ I1 J1 H) as (V' & I & J).
+    assert (Hp' : In p (fp (d_id node))) by (rewrite Efp; exact Hp).
+    destruct (J p Hp') as [Hv | []].
+    destruct (iF _ _ _ I _ Hv) as (z & Hr & [Hz | ([] & _)]).
+    apply in_map_iff in Hz. destruct Hz as (r & <- & Hin). exists r. auto.
+  Qed.
+
   (* everything the loop can return *)
   Lemma find_roots_inv fuel roots :
     find_roots_fp fuel fp limit node = Some roots -> exists V, Inv [] V roots.
@@ -1502,4 +1566,83 @@ Lemma extended_copy_x_spec resolve roots_ok copy_ok tag_ok src_ref dst_ref tags 
 Proof.
   unfold extended_copy_x, extended_copy. destruct (resolve src_ref) as [n|]; [|split; reflexivity].
   destruct roots_ok, copy_ok, tag_ok; simpl; repeat split; auto; discriminate.
+Qed.
+
+(* ------------------------------------------------------------------ failing operations, any
+   error-aware FindPredecessors that refines a fault-free one *)
+Lemma dfs_ef_ok fuel fpe fp limit :
+  (forall x k ps k', fpe x k = Some (ps, k') -> ps = fp x) ->
+  forall st V R k roots,
+  dfs_ef fuel fpe limit st V R k = ROk roots -> dfs fuel fp limit st V R = Some roots.
+Proof.
+  intro Href. induction fuel as [|fuel IH]; intros st V R k roots H; cbn [dfs_ef dfs] in *; [discriminate|].
+  destruct st as [|[cur d] rest]; [now injection H as <-|].
+  destruct (mem (d_id cur) V); [eapply IH; eauto|].
+  destruct ((0 <? limit)%Z && (Z.of_nat d =? limit)%Z)%bool; [eapply IH; eauto|].
+  destruct (fpe (d_id cur) k) as [[ps k']|] eqn:E; [|discriminate].
+  apply Href in E. rewrite <- E. destruct ps as [|p0 ps]; eapply IH; eauto.
+Qed.
+
+(* fuel exhaustion of the error-aware loop implies fuel exhaustion of the plain loop: with the
+   runner's fuel the outcome is always a root set or an error *)
+Lemma dfs_ef_fuel fuel fpe fp limit :
+  (forall x k ps k', fpe x k = Some (ps, k') -> ps = fp x) ->
+  forall st V R k,
+  dfs_ef fuel fpe limit st V R k = RFuel -> dfs fuel fp limit st V R = None.
+Proof.
+  intro Href. induction fuel as [|fuel IH]; intros st V R k H; cbn [dfs_ef dfs] in *; [reflexivity|].
+  destruct st as [|[cur d] rest]; [discriminate|].
+  destruct (mem (d_id cur) V); [eapply IH; eauto|].
+  destruct ((0 <? limit)%Z && (Z.of_nat d =? limit)%Z)%bool; [eapply IH; eauto|].
+  destruct (fpe (d_id cur) k) as [[ps k']|] eqn:E; [|discriminate].
+  apply Href in E. rewrite <- E. destruct ps as [|p0 ps]; eapply IH; eauto.
+Qed.
+
+Lemma dfs_e_is_ef fuel s fs limit : forall st V R k,
+  dfs_e fuel s fs limit st V R k = dfs_ef fuel (find_preds_e s fs) limit st V R k.
+Proof.
+  induction fuel as [|fuel IH]; intros st V R k; cbn [dfs_e dfs_ef]; [reflexivity|].
+  destruct st as [|[cur d] rest]; [reflexivity|].
+  destruct (mem (d_id cur) V); [apply IH|].
+  destruct ((0 <? limit)%Z && (Z.of_nat d =? limit)%Z)%bool; [apply IH|].
+  destruct (find_preds_e s fs (d_id cur) k) as [[[|p0 ps] k']|]; auto.
+Qed.
+
+Lemma find_preds_custom_e_ok s custom fs x k ps k' :
+  find_preds_custom_e s custom fs x k = Some (ps, k') -> ps = find_preds_custom s custom fs x.
+Proof.
+  unfold find_preds_custom_e, find_preds_custom. destruct (tick k) as [k1|]; [|discriminate].
+  destruct (fold_left (step_e s) fs (Some (false, custom x, k1))) as [[[b0 ps1] k2]|] eqn:E; [|discriminate].
+  intro H. injection H as <- _. apply fold_step_e_ok in E. now rewrite E.
+Qed.
+
+(* success below a caller-supplied FindPredecessors = the fault-free result *)
+Lemma find_roots_custom_e_success fuel s custom fs limit node k roots :
+  find_roots_custom_e fuel s custom fs limit node k = ROk roots ->
+  find_roots_fp fuel (find_preds_custom s custom fs) limit node = Some roots.
+Proof.
+  unfold find_roots_custom_e, find_roots_fp. apply dfs_ef_ok.
+  intros x k0 ps k'. apply find_preds_custom_e_ok.
+Qed.
+
+(* totality with the runner's fuel: a root set or an error, never fuel exhaustion *)
+Lemma find_roots_e_total s fs limit node n k :
+  (forall x p, x < n -> In p (s_preds s x) -> d_id p < n) -> d_id node < n ->
+  find_roots_e (fuel_for s n) s fs limit node k <> RFuel.
+Proof.
+  intros Hc Hn H. unfold find_roots_e in H. rewrite dfs_e_is_ef in H.
+  apply (dfs_ef_fuel _ _ (find_preds s fs)) in H; [|intros x k0 ps k'; apply find_preds_e_ok].
+  destruct (find_roots_terminates s fs limit node n Hc Hn) as (roots & Hr).
+  unfold find_roots, find_roots_fp in Hr. congruence.
+Qed.
+
+(* any Depth (also d = 1): every followed direct predecessor of the given node lies under a root,
+   so with the copy-closure fact the graphs of all direct predecessors / referrers are copied *)
+Lemma find_roots_direct_preds s fs rank limit node fuel roots :
+  acyclic_source s rank ->
+  find_roots fuel s fs limit node = Some roots ->
+  forall p, In p (find_preds s fs (d_id node)) -> exists r, In r roots /\ anc s fs (d_id p) (d_id r).
+Proof.
+  intros Hac H. exact (roots_cover_direct_preds (find_preds s fs) limit node rank
+                         (find_preds_rank s fs rank Hac) fuel roots H).
 Qed.
